@@ -24,6 +24,10 @@
      (high)  F > E, logged on         : no DELIVER, a ResendRequest (35=2) with BeginSeqNo = E goes out
      (low)   F < E without PossDup    : as (comp)
      (dup)   F < E, PossDup, Orig after Sending : no DELIVER
+     (deliv) in sequence (F = E, or F < E with PossDup and Orig not after Sending), logged on, CompIDs right:
+             an APPLICATION message (any type the schema does not mark administrative, also a two-character
+             type that starts with the character of an administrative type) is delivered exactly once, as its
+             own type; an administrative message is not delivered
    Scope: (comp) (high) (low) (dup) are applied to every message type except SequenceReset (its
    MsgSeqNum is exempt from the sequence rule by the FIX protocol; (comp) still applies) and Logon
    outside the logon phase (a second Logon is answered with a Reject: C23's subject); a Logon in
@@ -182,13 +186,26 @@ Definition logon_expected (o : ost) (toks : list (bytes * bytes)) : N :=
 Definition stop_clause (o : ost) (seg : list event) (ret : Z) : bool :=
   negb (has_deliver seg) && (pr_sd (sp_par (o_sp o)) || has_out [53] seg) && (ret =? 0)%Z.
 
-Definition seq_clauses (o : ost) (F E : N) (toks : list (bytes * bytes)) (seg : list event) (ret : Z) : bool :=
+(* (deliv) an application message that is in sequence is handed to the application exactly once, under its own
+   type; an administrative message never is *)
+Definition delivers_of (seg : list event) : list bytes :=
+  flat_map (fun e => match e with EDeliver t _ _ => [t] | _ => [] end) seg.
+Definition deliv_clause (app : bool) (ty : bytes) (seg : list event) : bool :=
+  if app then match delivers_of seg with [t] => beq t ty | _ => false end
+  else negb (has_deliver seg).
+
+Definition seq_clauses (o : ost) (app : bool) (ty : bytes) (F E : N) (toks : list (bytes * bytes))
+                       (seg : list event) (ret : Z) : bool :=
   if E <? F then negb (has_deliver seg) && resend_from E seg
   else if F <? E then
     if negb (possdup toks) then stop_clause o seg ret
     else if orig_late toks then negb (has_deliver seg)
-    else true
-  else true.
+    else deliv_clause app ty seg
+  else deliv_clause app ty seg.
+
+(* application message = a type the schema does not mark administrative (whatever its first character is) *)
+Definition is_app (sc : schema) (ty : bytes) : bool :=
+  match find_def ty (sc_msgs sc) with Some d => negb (d_admin d) | None => false end.
 
 Definition compid_wrong (o : ost) (toks : list (bytes * bytes)) : bool :=
   pr_ec (sp_par (o_sp o)) && o_ids o &&
@@ -205,12 +222,12 @@ Definition check_msg (sc : schema) (lens : list N) (o : ost) (first : bool) (raw
     | Some F =>
       let ty := val (fld T_MsgType toks) in
       if beq ty [65] then
-        if logon_phase (o_state o) then seq_clauses o F (logon_expected o toks) toks seg ret
+        if logon_phase (o_state o) then seq_clauses o false ty F (logon_expected o toks) toks seg ret
         else negb dl
       else if negb (logged_on (o_state o)) || negb (o_ids o) then negb dl
       else if compid_wrong o toks then stop_clause o seg ret
       else if beq ty [52] then negb dl
-      else seq_clauses o F (o_exp o) toks seg ret
+      else seq_clauses o (is_app sc ty) ty F (o_exp o) toks seg ret
     end.
 
 Fixpoint check_msgs (sc : schema) (lens : list N) (o : ost) (first : bool) (msgs : list bytes) (segs : list (list event * Z)) : bool :=
